@@ -317,7 +317,8 @@ enum MsgColor {
 }
 
 fn file_message(color: MsgColor, left: &str, right: &PathBuf) {
-    let right = format!("target {}", right.to_str().unwrap());
+    // File names need not be valid UTF-8: never fail (after the work is done) just to print one
+    let right = format!("target {}", right.to_string_lossy());
     message(color, left, &right);
 }
 
@@ -336,7 +337,7 @@ where
 fn run(name: &PathBuf, debugger_opts: Option<debugger::Options>, minimal: bool) -> Result<()> {
     file_message(MsgColor::Green, "Assembling", &name);
     let mut program = if let Some(ext) = name.extension() {
-        match ext.to_str().unwrap() {
+        match ext.to_str().unwrap_or("") {
             "lc3" | "obj" => {
                 if debugger_opts.is_some() {
                     bail!("Cannot use debugger on non-assembly file");
